@@ -459,7 +459,11 @@ func (g *gen) tmplParts(d int, lits []string) {
 			g.tmplParts(d-1, lits)
 			g.w(g.pick([]string{"%{ endfor }", "%{endfor}", "%{ endif }", "", "%{ else }"}))
 		default:
-			g.w(g.pick([]string{"%{", "%{ bogus }", "%{ }", "${}", "${", "%{ if }", "%{ for }", "%{ for x }", "%{ endfor }", "%{ else }"}))
+			if g.coin(50) {
+				g.w(g.pick(dirSnippets))
+			} else {
+				g.w(g.pick([]string{"%{", "%{ bogus }", "%{ }", "${}", "${", "%{ if }", "%{ for }", "%{ for x }", "%{ endfor }", "%{ else }"}))
+			}
 		}
 	}
 }
@@ -785,6 +789,9 @@ func mutate(t *rapid.T, b []byte, kind string, other func() []byte) []byte {
 	case "insert":
 		p := pos(t, len(b))
 		tok := insertTokens[uni(t, len(insertTokens))]
+		if uni(t, 6) == 0 {
+			tok = dirSnippets[uni(t, len(dirSnippets))]
+		}
 		out := append([]byte(nil), b[:p]...)
 		out = append(out, tok...)
 		return append(out, b[p:]...)
@@ -893,7 +900,22 @@ func genCase(t *rapid.T) Case {
 		}
 		c.Src = out
 		return c
-	case cls < 72:
+	case cls < 24:
+		// the template-directive family (directive_test.go); the labels travel in Mut
+		dc := genDirectiveCase(t)
+		if uni(t, 4) == 0 {
+			k := mutKinds[uni(t, len(mutKinds))]
+			dc.Src = mutate(t, dc.Src, k, func() []byte { return genGrammar(t, "template") })
+			dc.Mut = append(dc.Mut, k)
+		}
+		if len(dc.Src) > maxLen() {
+			dc.Src = dc.Src[:maxLen()]
+		}
+		if capped, did := capScanCost(dc.Src); did {
+			dc.Src = capped
+		}
+		return dc
+	case cls < 74:
 		c.Gen = "grammar"
 		c.Src = genGrammar(t, kind)
 	default:
